@@ -96,6 +96,9 @@ func (eng *Engine) verifyFunc(fn *ssa.Function, props []string) (fc *FnCtx, err 
 		if spec != nil {
 			env := fr.specEnv(st, st)
 			for _, cl := range spec.Requires {
+				if !clauseActive(cl) { // ext_propfilter.go: a precondition of another property is neither assumed here nor proved at the call sites in this run
+					continue
+				}
 				t, e := env.evalBool(cl.E)
 				if e != nil {
 					eng.stale(spec, cl, e)
@@ -111,6 +114,7 @@ func (eng *Engine) verifyFunc(fn *ssa.Function, props []string) (fc *FnCtx, err 
 				}
 				fr.panicsWhenOld = append(fr.panicsWhenOld, fc.define("pw", "Bool", t))
 			}
+			fr.evalNoPanicWhen(spec, env) // ext_nopanic.go
 		}
 		if os.Getenv("GOVC_NOFRAME") == "" {
 			fr.computeFrame(st)
@@ -161,9 +165,10 @@ func (eng *Engine) verifyFunc(fn *ssa.Function, props []string) (fc *FnCtx, err 
 		if spec != nil && pass == 1 {
 			fr.checkLineHintAnchors()
 		}
+		noteLeftOutClauses(fc, spec) // ext_propfilter.go: the evidence lists every clause that `check Cxx` left out
 		if spec != nil {
 			for i, h := range spec.Hints {
-				if e := fr.hintErr[i]; e != nil && !fr.hintOK[i] {
+				if e := fr.hintErr[i]; e != nil && !fr.hintOK[i] && clauseActive(h.Clause) {
 					eng.stale(spec, h.Clause, e)
 				}
 			}
